@@ -214,6 +214,10 @@ def run_property(pid, tier, seed, out=sys.stdout):
             continue
         bad = [(ob, r) for ob, r in items if r['verdict'] != solve.PROVED]
         ob, r = bad[0]
+        if ob.kind == 'deadpath':
+            # construct outside the supported subset on a path that is not shown infeasible: undecided, never a verdict
+            undecided.append(dict(obligation=name, why='unsupported construct on a feasible path', trail=ob.trail))
+            continue
         refuted = any(x['verdict'] == solve.REFUTED for _, x in bad)
         nf = native_failure_for(q, name)
         label_match = False
